@@ -114,7 +114,9 @@ func (fc *FnCtx) wf(t types.Type, term string, depth int) string {
 		if arr, ok := t.Underlying().(*types.Array); ok {
 			return and("(not (b_nil "+term+"))", eq("(str.len (b_s "+term+"))", strconv.FormatInt(arr.Len(), 10)))
 		}
-		return "(=> (b_nil " + term + ") (= (b_s " + term + ") \"\"))"
+		return "(and (=> (b_nil " + term + ") (= (b_s " + term + ") \"\")) (< (str.len (b_s " + term + ")) 9223372036854775808))"
+	case "String":
+		return "(< (str.len " + term + ") 9223372036854775808)"
 	case "Ctx":
 		return "true"
 	case "Iface":
@@ -127,7 +129,7 @@ func (fc *FnCtx) wf(t types.Type, term string, depth int) string {
 			return rangeOf(t, term)
 		}
 	case *types.Slice:
-		return and("(>= (s_len "+term+") 0)", "(=> (s_nil "+term+") (= (s_len "+term+") 0))")
+		return and("(>= (s_len "+term+") 0)", "(< (s_len "+term+") 9223372036854775808)", "(=> (s_nil "+term+") (= (s_len "+term+") 0))")
 	case *types.Array:
 		return and(eq("(s_len "+term+")", strconv.FormatInt(u.Len(), 10)), "(not (s_nil "+term+"))")
 	case *types.Pointer, *types.Map:
@@ -883,6 +885,9 @@ func (fr *Frame) execInstr(b *ssa.BasicBlock, in ssa.Instruction, st *State, rea
 			return
 		}
 		fc.store(st, p, v)
+		if p.Fn != nil && p.Fn.Special == "elemptr" {
+			fr.sliceElemWrite(x, p, v)
+		}
 	case *ssa.Range:
 		fr.rangeInit(x, st)
 	case *ssa.Next:
@@ -1320,7 +1325,7 @@ func (fr *Frame) indexAddr(x *ssa.IndexAddr, st *State, reach string) {
 		}
 		fc.store(st, p, fc.mkVal(elem, ev))
 		p.Typ = x.Type()
-		p.Fn = &FnVal{Special: "elemptr", Data: []Val{base, idx}}
+		p.Fn = &FnVal{Special: "elemptr", Data: []Val{base, idx}, Base: x.X}
 		fr.vals[x] = p
 	default:
 		fc.unsupported("IndexAddr on %s", x.X.Type())
